@@ -454,7 +454,13 @@ create_world(World& w, const Plan& p)
     w.exam->set_high_energy_thres(650.f);
     w.exam->patient_position = PatientPosition(PatientPosition::HFS);
     w.exam->set_radionuclide(Radionuclide("^18^Fluorine", 511.f, 0.9686f, 6584.04f, ImagingModality(ImagingModality::PT)));
-    // scan start time and calibration factor are left unset: the PDFS header format does not carry them
+    // scan start time and calibration factor: keys of the Interfile header that the reader knows; set in half of the cases
+    if (p.c("exam_extras", 0))
+      {
+        w.exam->start_time_in_secs_since_1970 = 1600000000. + (double)p.c("frame_len", 30);
+        w.exam->set_calibration_factor(2.5f);
+        sim::probe("exam_info_with_start_time_and_calibration_factor");
+      }
   }
   w.build_model();
   w.store = (int)p.c("store", 0) % 4;
@@ -980,6 +986,7 @@ gen(uint64_t seed, const std::string& tier, long idx)
   // (the usual way to get non-TOF data from a TOF scanner)
   p.cfg["tof_mash_all"] = r.chance(0.2);
   (void)idx;
+  p.cfg["exam_extras"] = r.chance(0.5);
   return p;
 }
 
